@@ -18,15 +18,16 @@ var errSim = errors.New("verifsim: injected I/O error")
 // ReadSched is a sparse description of how a simulated reader delivers its
 // bytes.  Every field's zero value is the simplest behaviour.
 type ReadSched struct {
-	Seeker      int         `json:"seeker,omitempty"`      // 1: also an io.Seeker that works (like a regular *os.File); 2: Seek always fails (like a pipe)
-	ByteReader  bool        `json:"byte_reader,omitempty"` // also implements io.ByteReader
-	Chunk       int         `json:"chunk_policy"`          // 0 = as much as asked, 1 = one byte, 2 = seeded 1..7
-	ChunkSeed   uint64      `json:"chunk_seed,omitempty"`  // for policy 2
-	EOFWithData bool        `json:"eof_with_last_data"`    // final bytes delivered together with io.EOF
-	ZeroReads   map[int]int `json:"zero_reads,omitempty"`  // offset -> number of (0,nil) reads before data at that offset
-	ZeroEvery   int         `json:"zero_every,omitempty"`  // k>0: one (0,nil) read before every k-th byte offset (a slow but progressing reader)
-	ErrAt       int         `json:"error_at"`              // -1: none; else (0,errSim) once pos reaches it (sticky)
-	CutAt       int         `json:"cut_at"`                // -1: none; else the stream ends (EOF) at this offset
+	Seeker      int         `json:"seeker,omitempty"`          // 1: also an io.Seeker that works (like a regular *os.File); 2: Seek always fails (like a pipe)
+	ByteReader  bool        `json:"byte_reader,omitempty"`     // also implements io.ByteReader
+	Chunk       int         `json:"chunk_policy"`              // 0 = as much as asked, 1 = one byte, 2 = seeded 1..7
+	ChunkSeed   uint64      `json:"chunk_seed,omitempty"`      // for policy 2
+	EOFWithData bool        `json:"eof_with_last_data"`        // final bytes delivered together with io.EOF
+	ZeroReads   map[int]int `json:"zero_reads,omitempty"`      // offset -> number of (0,nil) reads before data at that offset
+	ZeroEvery   int         `json:"zero_every,omitempty"`      // k>0: one (0,nil) read before every k-th byte offset (a slow but progressing reader)
+	ErrAt       int         `json:"error_at"`                  // -1: none; else (0,errSim) once pos reaches it (sticky)
+	ErrWithData bool        `json:"error_with_data,omitempty"` // the read that reaches ErrAt returns its bytes TOGETHER with the error (then the error alone, sticky)
+	CutAt       int         `json:"cut_at"`                    // -1: none; else the stream ends (EOF) at this offset
 }
 
 func (s *ReadSched) String() string {
@@ -46,6 +47,9 @@ func (s *ReadSched) String() string {
 	}
 	if s.Seeker > 0 {
 		zr += []string{"", " seekable", " seek-fails"}[s.Seeker]
+	}
+	if s.ErrWithData {
+		zr += " errWithData"
 	}
 	return fmt.Sprintf("br=%v chunk=%d eofWithData=%v err@%d cut@%d%s", s.ByteReader, s.Chunk, s.EOFWithData, s.ErrAt, s.CutAt, zr)
 }
@@ -93,6 +97,7 @@ func DrawReadSched(t *Tape, L int, faults bool) *ReadSched {
 		switch t.Draw(3) {
 		case 1:
 			s.ErrAt = t.Draw(L + 1)
+			s.ErrWithData = t.Draw(3) == 2
 		case 2:
 			s.CutAt = t.Draw(L + 1)
 		}
@@ -198,6 +203,13 @@ func (r *SimReader) Read(p []byte) (n int, err error) {
 	}
 	copy(p, r.data[r.pos:r.pos+k])
 	r.pos += k
+	if r.s.ErrWithData && r.s.ErrAt >= 0 && r.pos == r.s.ErrAt && k > 0 {
+		// the last bytes before the failure arrive together with the error
+		r.ErrDelivered = true
+		r.errSent = true
+		r.c.C["fault.read_error_with_data"]++
+		return k, errSim
+	}
 	if r.pos == r.end && r.s.EOFWithData && !(r.s.ErrAt >= 0 && r.s.ErrAt <= r.end) {
 		r.EOFWithDataDelivered = true
 		r.eofSent = true
